@@ -74,4 +74,29 @@ def joinSp (xs : List String) : String := " ".intercalate xs
 
 def natList (xs : List Nat) : String := joinSp (toString xs.length :: xs.map toString)
 
+/-- Dispatch one request line to the handler registered for its command word.
+A request no handler understands yields `bad-op` (never a default value). -/
+def dispatch (handlers : List (String × Handler)) (line : String) : String :=
+  let ts := tokens line
+  match ts with
+  | [] => "bad-op"
+  | cmd :: _ =>
+    match handlers.find? (·.1 == cmd) with
+    | none => "bad-op"
+    | some (_, h) => (h ts).getD "bad-op"
+
+partial def loop (handlers : List (String × Handler)) (hin hout : IO.FS.Stream) : IO Unit := do
+  let line ← hin.getLine
+  if line.isEmpty then return ()
+  let l := if line.endsWith "\n" then (line.dropEnd 1).toString else line
+  hout.putStrLn (dispatch handlers l)
+  loop handlers hin hout
+
+/-- One-line-in, one-line-out driver over stdin/stdout. -/
+def mainLoop (handlers : List (String × Handler)) : IO Unit := do
+  let hin ← IO.getStdin
+  let hout ← IO.getStdout
+  loop handlers hin hout
+  hout.flush
+
 end Avo.Drv
